@@ -186,8 +186,8 @@ def check_constructors(led):
 
     def new_bay():
         bay = it.call(bmod.g['StiffPanelBay'], [], {})
-        bay.attrs.update(a=real('a'), b=real('b'), m=integer('m'), n=integer('n'), mu=real('mu_bay'), r=None, alphadeg=None,
-                         model='plate_clt_donnell_bardell', stack=[real('th_bay')], plyt=real('t_bay'),
+        bay.attrs.update(a=real('a'), b=real('b'), m=integer('m'), n=integer('n'), mu=real('mu_bay'), r=real('r_bay'), alphadeg=real('alphadeg_bay'),
+                         model='kpanel_clt_donnell_bardell', stack=[real('th_bay')], plyt=real('t_bay'),
                          laminaprop=tuple(real(x + '_bay') for x in MAT))
         for f in FLAG_NAMES:
             bay.attrs[f] = real(f + '_bay')
@@ -297,7 +297,8 @@ def check_constructors(led):
                         if not (kind == 'blade1d' and lab == 'flange'):
                             probs.append('no %s panel' % lab)
                         continue
-                    for k_, w in (('stack', stack_), ('plyts', plyts_), ('laminaprops', props_), ('mu', real('mu_stiffener') if mu_given else bay.attrs['mu'])):
+                    geo_ = [('r', bay.attrs['r']), ('alphadeg', bay.attrs['alphadeg'])] if lab == 'base' else []     # the base follows the skin surface
+                    for k_, w in [('stack', stack_), ('plyts', plyts_), ('laminaprops', props_), ('mu', real('mu_stiffener') if mu_given else bay.attrs['mu'])] + geo_:
                         if not same(c_.attrs.get(k_), w):
                             probs.append('%s.%s = %s, expected %s' % (lab, k_, pycheck.describe(c_.attrs.get(k_)), pycheck.describe(w)))
                 if kind == 'blade1d':
